@@ -21,6 +21,10 @@ Explains(ev) ==
          /\ ~ev.err /\ Len(ev.out) = Len(ev.pairs)
          /\ \A k \in 1..Len(ev.pairs) :
               ev.out[k] = CmpV(Col(ev.a)[ev.pairs[k][1] + 1], Col(ev.b)[ev.pairs[k][2] + 1], O(ev))
+    [] ev.op = "arreq" ->      \* array equality of one-row slices = the comparator says Equal
+         /\ ~ev.err /\ Len(ev.out) = Len(ev.pairs)
+         /\ \A k \in 1..Len(ev.pairs) :
+              ev.out[k] = (CmpV(Col(ev.a)[ev.pairs[k][1] + 1], Col(ev.b)[ev.pairs[k][2] + 1], DefaultOpt) = 0)
     [] ev.op = "lexcmp" ->     \* LexicographicalComparator::compare(i, j)
          /\ ~ev.err /\ Len(ev.out) = Len(ev.pairs)
          /\ \A k \in 1..Len(ev.pairs) :
